@@ -669,13 +669,16 @@ func (g Gateway) GetByIndexStream(in *hydrapb.GetByIndexStreamRequest, stream hy
 	var treasures []treasure.Treasure
 	var residualFilters *hydrapb.FilterGroup
 
-	if plan.Mode != PlanModeBypass && bucketExecPreconditions(beaconType) {
+	// From/Limit page the index walk BEFORE the filters are applied (MaxResults is the post-filter
+	// limit); the candidate set of the field index is already filtered, so a paged request is
+	// answered by the beacon walk to keep one meaning of From/Limit.
+	if plan.Mode != PlanModeBypass && bucketExecPreconditions(beaconType) && in.GetFrom() == 0 && in.GetLimit() == 0 {
 		// Bucket-routed: pull candidates from the auto-built index,
-		// then apply time-range, sort, paging, residual predicate.
+		// then apply time-range, sort, residual predicate.
 		candidates := collectBucketCandidates(swampInterface, plan.Hints)
 		candidates = applyTimeRange(candidates, beaconType, fromTime, toTime)
 		sortCandidates(candidates, beaconType, order)
-		treasures = applyFromLimit(candidates, in.GetFrom(), in.GetLimit())
+		treasures = candidates
 		residualFilters = plan.Residual
 	} else {
 		// Bypass: legacy beacon walk, full per-row predicate.
@@ -808,11 +811,12 @@ func (g Gateway) GetByIndexStreamFromMany(in *hydrapb.GetByIndexStreamFromManyRe
 			var treasures []treasure.Treasure
 			var residualFilters *hydrapb.FilterGroup
 
-			if plan.Mode != PlanModeBypass && bucketExecPreconditions(beaconType) {
+			// paged requests are answered by the beacon walk (see GetByIndexStream)
+			if plan.Mode != PlanModeBypass && bucketExecPreconditions(beaconType) && query.GetFrom() == 0 && query.GetLimit() == 0 {
 				candidates := collectBucketCandidates(swampInterface, plan.Hints)
 				candidates = applyTimeRange(candidates, beaconType, fromTime, toTime)
 				sortCandidates(candidates, beaconType, order)
-				treasures = applyFromLimit(candidates, query.GetFrom(), query.GetLimit())
+				treasures = candidates
 				residualFilters = plan.Residual
 			} else {
 				treasures, err = swampInterface.GetTreasuresByBeacon(
